@@ -463,6 +463,11 @@ func (iv *Inv) guardRejects(fn *ssa.Function, isField func(ssa.Value) bool, req 
 			}
 			return false, false
 		})
+		for _, cs := range iv.w.CG().Sites[fn] {
+			if call := siteCall(cs); call != nil && hasSuffixAny(callName(call.Common()), "types.AccAddressFromBech32") && through(call.Common().Args[0]) {
+				rej = append(rej, NilEdges(fn, errValues(fn, call), false)...)
+			}
+		}
 	case reqDenom, reqMacc:
 		// a call whose error / false result means "bad"
 		cg := iv.w.CG()
@@ -813,6 +818,30 @@ func (iv *Inv) tryDischarge(s invSite) (bool, string) {
 		if MustPass(fn, edges, s.instr.Block()) {
 			return true, "g1: dominated by IsInt64() on the same value"
 		}
+		// closure (deferred gauge): the closure is created under IsInt64() of the captured value
+		if parent := fn.Parent(); parent != nil {
+			sig := iv.closurePathSig(fn, x)
+			if sig != "" {
+				for _, b := range parent.Blocks {
+					for _, in := range b.Instrs {
+						mc, ok := in.(*ssa.MakeClosure)
+						if !ok || mc.Fn != ssa.Value(fn) {
+							continue
+						}
+						pe := EdgesWhere(parent, func(base ssa.Value) (bool, bool) {
+							c, ok := base.(*ssa.Call)
+							if ok && hasSuffixAny(callName(c.Common()), ".IsInt64", ".IsUint64") && iv.parentPathSig(mc, c.Common().Args[0]) == sig {
+								return true, true
+							}
+							return false, false
+						})
+						if MustPass(parent, pe, mc.Block()) {
+							return true, "g1: the closure is created under IsInt64() of the captured value"
+						}
+					}
+				}
+			}
+		}
 		return false, "Int64() panics above 2^63-1 and is not dominated by IsInt64() on the same value"
 	case "quo", "intdiv":
 		var d ssa.Value
@@ -953,6 +982,68 @@ func (iv *Inv) tryDischarge(s invSite) (bool, string) {
 		return false, "explicit panic"
 	}
 	return false, ""
+}
+
+// closurePathSig renders the access path of v inside a closure relative to a captured variable: "#<freevar index>.f.g".
+func (iv *Inv) closurePathSig(fn *ssa.Function, v ssa.Value) string {
+	var parts []string
+	for i := 0; i < 10; i++ {
+		switch x := v.(type) {
+		case *ssa.UnOp:
+			if x.Op != token.MUL {
+				return ""
+			}
+			parts = append(parts, "*")
+			v = x.X
+		case *ssa.FieldAddr:
+			_, f := fieldOf(x)
+			parts = append(parts, "."+f)
+			v = x.X
+		case *ssa.Field:
+			parts = append(parts, fieldElem(x.X.Type(), x.Field))
+			v = x.X
+		case *ssa.FreeVar:
+			for k, fv := range fn.FreeVars {
+				if fv == x {
+					return fmt.Sprintf("#%d%s", k, strings.Join(parts, ""))
+				}
+			}
+			return ""
+		default:
+			return ""
+		}
+	}
+	return ""
+}
+
+// parentPathSig renders the access path of v in the parent relative to the closure's bindings.
+func (iv *Inv) parentPathSig(mc *ssa.MakeClosure, v ssa.Value) string {
+	var parts []string
+	for i := 0; i < 10; i++ {
+		for k, b := range mc.Bindings {
+			if b == v {
+				return fmt.Sprintf("#%d%s", k, strings.Join(parts, ""))
+			}
+		}
+		switch x := v.(type) {
+		case *ssa.UnOp:
+			if x.Op != token.MUL {
+				return ""
+			}
+			parts = append(parts, "*")
+			v = x.X
+		case *ssa.FieldAddr:
+			_, f := fieldOf(x)
+			parts = append(parts, "."+f)
+			v = x.X
+		case *ssa.Field:
+			parts = append(parts, fieldElem(x.X.Type(), x.Field))
+			v = x.X
+		default:
+			return ""
+		}
+	}
+	return ""
 }
 
 func (iv *Inv) siteOf(s invSite) *Site {
@@ -1113,6 +1204,11 @@ func (iv *Inv) nonNegOK(fn *ssa.Function, at ssa.Instruction, v ssa.Value) (bool
 	}
 	if isZeroIntValue(v) {
 		return true, "g3: zero"
+	}
+	if c, ok := v.(*ssa.Call); ok && hasSuffixAny(callName(c.Common()), "types.NewInt", "math.NewInt", "types.NewIntFromUint64", "math.NewIntFromUint64") {
+		if k, ok := stripConv(c.Common().Args[0]).(*ssa.Const); ok && k.Value != nil && constant.Sign(constant.ToInt(k.Value)) >= 0 {
+			return true, "g3: non-negative constant"
+		}
 	}
 	if ok, how := iv.validatedByCall(fn, at, v, func(p *ssa.Parameter) func(ssa.Value) (bool, bool) {
 		return func(base ssa.Value) (bool, bool) {
@@ -1391,6 +1487,46 @@ func (iv *Inv) stringNonEmpty(fn *ssa.Function, at ssa.Instruction, s ssa.Value,
 			return true, "g1: the key string parsed as a bech32 address on this path"
 		}
 	}
+	// field of a struct parameter: follow to the literal built by every caller
+	if T, f, ok := fieldOfValue(s); ok && depth < 3 {
+		if pname := rootParam(s); pname != "" {
+			var p *ssa.Parameter
+			idx := -1
+			for i, x := range fn.Params {
+				if x.Name() == pname {
+					p, idx = x, i
+				}
+			}
+			if p != nil && typeString(p.Type()) == typeString(T) {
+				callers := cg.Callers[fn]
+				allOK := len(callers) > 0
+				var hows []string
+				for _, cs := range callers {
+					if cs.Common().IsInvoke() || idx >= len(cs.Common().Args) {
+						allOK = false
+						break
+					}
+					arg := cs.Common().Args[idx]
+					fv := fieldStoredInto(arg, f)
+					if fv == nil {
+						// the struct itself came from elsewhere (e.g. a stored record): decide by the record's validation
+						allOK = false
+						break
+					}
+					ok, how := iv.stringNonEmpty(cs.Caller, cs.Instr, fv, depth+1)
+					if !ok {
+						allOK = false
+						hows = append(hows, funcName(cs.Caller)+": "+how)
+						break
+					}
+					hows = append(hows, funcName(cs.Caller)+": "+how)
+				}
+				if allOK {
+					return true, "field " + f + " set by every caller {" + strings.Join(hows, " | ") + "}"
+				}
+			}
+		}
+	}
 	// field of a validated record
 	if T, f, ok := fieldOfValue(s); ok {
 		if ok2, how := iv.fieldValidated(T, f, reqNonEmpty); ok2 {
@@ -1423,6 +1559,42 @@ func (iv *Inv) stringNonEmpty(fn *ssa.Function, at ssa.Instruction, s ssa.Value,
 		}
 	}
 	return false, shortVal(s)
+}
+
+// fieldStoredInto: arg is a load of a local composite literal; return the value stored into its field f.
+func fieldStoredInto(arg ssa.Value, f string) ssa.Value {
+	u, ok := arg.(*ssa.UnOp)
+	if !ok || u.Op != token.MUL {
+		return nil
+	}
+	a, ok := u.X.(*ssa.Alloc)
+	if !ok {
+		return nil
+	}
+	var out ssa.Value
+	n := 0
+	whole := 0
+	for _, ref := range *a.Referrers() {
+		switch x := ref.(type) {
+		case *ssa.FieldAddr:
+			if _, name := fieldOf(x); name == f {
+				for _, r2 := range *x.Referrers() {
+					if st, ok := r2.(*ssa.Store); ok && st.Addr == ssa.Value(x) {
+						out = st.Val
+						n++
+					}
+				}
+			}
+		case *ssa.Store:
+			if x.Addr == ssa.Value(a) {
+				whole++
+			}
+		}
+	}
+	if n == 1 && whole == 0 {
+		return out
+	}
+	return nil
 }
 
 // indexOK: range-loop indices, indices below len() by a dominating test, and `pos >= 0` results of a search.
